@@ -7,7 +7,8 @@
    well-formed programs never do it), Return pops a frame and resumes at its return address
    or halts.  A failing instruction changes nothing but `st` (fail-stop, C10).
 
-   state: [st : "run"|"done"|"fail", pc, stack, frames : Seq([ret, locals]), globals, heap, out, note]  *)
+   state: [st : "run"|"done"|"fail", pc, stack, frames : Seq([ret, base, locals]), globals, heap, out, note]
+   (base = operand-stack depth when the frame was entered, after its arguments were taken)  *)
 EXTENDS FMLBytecode, FMLBuiltins
 
 VMInit(I) ==
@@ -15,7 +16,7 @@ VMInit(I) ==
   [st |-> IF Len(e.code) > 0 THEN "run" ELSE "done",
    pc |-> IF Len(e.code) > 0 THEN I.base[I.entry] ELSE -1,
    stack |-> <<>>,
-   frames |-> << [ret |-> -1, locals |-> [i \in 1..e.locals |-> Null]] >>,
+   frames |-> << [ret |-> -1, base |-> 0, locals |-> [i \in 1..e.locals |-> Null]] >>,
    globals |-> [n \in I.gnames |-> Null], heap |-> <<>>, out |-> <<>>, note |-> "" ]
 
 VFail(s) == [s EXCEPT !.st = "fail"]
@@ -38,7 +39,7 @@ Nulls(n) == [i \in 1..n |-> Null]
 Enter(I, s, mi, argvals, stk) ==
   LET mc == I.consts[mi + 1] IN
   [s EXCEPT !.stack = stk,
-            !.frames = Append(s.frames, [ret |-> NextAddr(I, s.pc), locals |-> argvals \o Nulls(mc.locals)]),
+            !.frames = Append(s.frames, [ret |-> NextAddr(I, s.pc), base |-> Len(stk), locals |-> argvals \o Nulls(mc.locals)]),
             !.pc = I.base[mi]]
 
 \* method lookup: receiver, then its parent, ...; primitives / arrays at the end of a chain
